@@ -1,5 +1,10 @@
 """C11 - Both solver back-ends solve the same problem and report duals in one convention."""
+from pyvc import components, runner
 from harness import components as hc, models
+
+MW = 'PEPit/wrappers/mosek_wrapper.py::MosekWrapper.'
+FUNCS = [MW + n for n in ('set_main_variables', 'send_constraint_to_solver', 'generate_problem', 'prepare_heuristic', '_get_Gram_from_mosek')] + [
+    'PEPit/tools/expressions_to_matrices.py::expression_to_sparse_matrices']
 
 
 def tasks(run):
@@ -21,6 +26,15 @@ def sig(kind, args, info, f):
 
 
 def run(run):
+    # deductive part: the rows / objective the MOSEK wrapper emits, stated against ASSUMED contracts of the MOSEK Optimizer API (contracts/mosek.py),
+    # denote the same affine functions as the dense (cvxpy) encoding: same `sparse_facts` / coefficient statements as C05
+    runner.load_contracts()
+    components.ast_functions(run, FUNCS, run.tier, rt_quick=25, rt_thorough=150)
+    run.assume('MOSEK Optimizer API (getnumcon, getmaxnumvar, appendcons, appendvars, appendbarvars, appendsparsesymmat, putbaraij, putaijlist, putconbound, '
+               'putvarbound, putclist, putobjsense) is modelled by assumed contracts over ghost task state written from the documented meaning of each call '
+               '(contracts/mosek.py): lower-triangular triplets without duplicates, appended variables fixed at zero, appended rows free and empty',
+               'numpy broadcasting `int + zeros(shape, dtype=int)` is an integer array of the same length (python ints: no overflow); the pre-fix np.int8 is outside the subset',
+               'not under contract for MOSEK: send_lmi_constraint_to_solver, _recover_dual_values, solve, heuristic (bounded stand-in only)')
     hc.solve_scenarios(run, 'C11', tasks(run), 'rt-solve-backends',
                        'seeded DSL programs from 11 templates solved through the cvxpy back-end and through the real MosekWrapper running on a '
                        'recording / translating STAND-IN of the MOSEK Optimizer API (standins/mosek, not MOSEK): same value, valid certificate and '
